@@ -444,6 +444,8 @@ func (fr *Frame) runDefers(ins *ssa.RunDefers) {
 }
 
 func (fr *Frame) execDeferredCall(d *deferRec, ins ssa.Instruction) {
+	fr.inDefer = true
+	defer func() { fr.inDefer = false }()
 	cc := d.call
 	vc := fr.vc
 	sig := cc.Signature()
